@@ -9,14 +9,15 @@ UNITS = {
     "setup": dict(engine="verus", serves=["C17"]),
     "panics": dict(engine="verus", serves=["C13"]),
     "panic_bytes": dict(engine="kani", serves=["C13", "C14"], path="kani/panic_bytes", kind="Kani harnesses over verbatim byte-level slices (bounded UTF-16 frame; full-domain byte map)"),
-    "conn":   dict(engine="verus", serves=["C07", "C13"]),
+    "conn":   dict(engine="verus", serves=["C07", "C13", "C03"]),
     "actors": dict(engine="verus", serves=["C09", "C10", "C11", "C13"]),
-    "sign": dict(engine="verus", serves=["C04", "C10", "C13"]),
+    "sign": dict(engine="verus", serves=["C04", "C10", "C13", "C15"]),
     "keystore":  dict(engine="verus", serves=["C08", "C13"]),
     "keykeeper": dict(engine="verus", serves=["C08", "C09", "C13"]),
     "ebpf_c":  dict(engine="cbmc", serves=["C06"], path="c/ebpf", kind="CBMC function contracts (goto-instrument --dfcc) on the unmodified linux-ebpf/ebpf_cgroup.c against a contract-level model of the BPF helpers; gcc replay of counterexamples"),
     "ebpf_rs": dict(engine="kani", serves=["C06"], path="kani/ebpf_rs", kind="Kani full-domain harnesses over the real ebpf_obj.rs (#[path]) and byte-for-byte extracted redirector items; layout table shared with the C side"),
     "authorizer": dict(engine="verus", serves=["C03", "C11", "C01", "C13"]),
+    "redirect": dict(engine="verus", serves=["C09", "C06"]),
 }
 
 PROPERTIES = {
@@ -36,7 +37,7 @@ PROPERTIES = {
 }
 
 PROPERTIES["C03"] = dict(
-    units=["authorizer", "handler"],
+    units=["authorizer", "handler", "conn"],
     technique="Verus contracts on the extracted real functions (trait-level spec function, table refinement, corollary lemmas)",
     level_text="Deductive proof (Verus/Z3), all inputs and configurations: every Authorizer impl, get_authorizer and authorize, extracted "
                "verbatim from proxy_authorizer.rs, are proved to compute the decision table written from the statement; the two sentences "
@@ -162,7 +163,7 @@ PROPERTIES["C05"] = dict(
 )
 
 PROPERTIES["C15"] = dict(
-    units=["handler"],
+    units=["handler", "sign"],
     technique="Verus contracts on the extracted real functions (limit-layer choice slice; collected-body capability in the upstream primitive's precondition)",
     level_text="Deductive proof (Verus/Z3): the statements of the service closure that pick the body-limit layer (E5 slice, verbatim) choose "
                "limit 104857600 iff should_skip_sig(method, uri) and 102400 otherwise (constants evaluated by Verus); on every path of "
@@ -227,7 +228,7 @@ PROPERTIES["C08"] = dict(
     assumptions=[],
 )
 PROPERTIES["C09"] = dict(
-    units=["keykeeper", "actors"],
+    units=["keykeeper", "actors", "redirect"],
     technique="Verus contracts on the extracted real functions: exact functional specs of KeyStatus accessors/validate; abstract key-keeper state threaded (E4) through one-message wrapper stubs under a single-writer census; composite wrappers proved from them; postconditions of the loop_poll slice (E5) and of the notified arm; pure convergence lemmas; actor arms (unit actors)",
     level_text="Deductive proof (Verus/Z3) of the inductive step for every prior state and every status document: validate Ok iff the document is valid; get_secure_channel_state/get_*_mode/get_*_rules/get_*_rule_id equal the spec functions written from the statement and field comments (1.0/2.0); in the verbatim loop-body tail a failed or invalid status makes no mutating call and changes nothing; otherwise each endpoint's rule id becomes the document's and its rules compute(document rules) iff the id changed, and after a complete iteration state == document state, disabled => no key (invariant preserved), enabled => the key is the host-named or just-attested one, redirect policy updated iff the state text changed with flag mode != disabled per endpoint; lemma: for every state satisfying I and a host-consistent document the resulting rules are a function of the document alone and I is preserved.",
     level_note="Trusted: one-message actor wrapper contracts (arms: unit actors); single-writer census; host contract (rule id determines content, empty id = no rules) and key-store naming invariant as explicit hypotheses; get_status body (only its validate tail verified); to_lowercase uninterpreted; format! literal stub; AuthorizationItem::clone equal. Clauses about actor state hold for iterations without an actor-call Err. Not covered: liveness/timing, the loop and select! around the slice (only the state-reset block of the notified arm), redirector internals (C06). Redirect updates are keyed on the state text: with the 2.0 channel disabled or undocumented mode words, later mode changes are not propagated (lemma states exactly when they are).",
